@@ -29,7 +29,7 @@ ASSUMPTIONS = [
 ]
 
 SHAPES = [(6, 6, 6), (7, 7, 7), (6, 8, 7)]
-PAIRS = ["same", "affine:0.5:-2", "affine:3:5", "mix", "noise", "negated", "gain:3", "offset:5"]
+PAIRS = ["same", "affine:0.5:-2", "affine:3:5", "mix", "noise", "negated", "gain:3", "gain:0.0001", "gain:10000", "offset:5"]
 MASKS = ["none", "binary", "soft"]
 CUTOFFS = [None, 0.4]
 TILTS = ["none", "y50:I", "y50:gen0", "x50:gen1"]
@@ -273,6 +273,14 @@ def run_case(case):
         s2 = float(model.score((a * img).astype(np.float32), q, pos))
         if mname != "PCC" and abs(s2 - s) > 2e-4:
             viol.append((sig("gain-invariance"), f"score {s:.5f} -> {s2:.5f} after multiplying the sub-volume by {a}"))
+        if mname in ("ZNCC", "FSC"):
+            # the rescaled sub-volume through the other two entry points
+            img2 = (a * img).astype(np.float32)
+            l2 = np.asarray(model.landscape(img2, (1.0, 1.0, 1.0), quaternion=q, pos=pos))
+            c2 = float(l2[tuple(n // 2 for n in l2.shape)])
+            z2 = float(model.align(img2, (0.0, 0.0, 0.0), quaternion=q, pos=pos).score)
+            if abs(c2 - s) > 3e-4 or abs(z2 - s) > 3e-4:
+                viol.append((sig("gain-invariance"), f"score {s:.5f}; after multiplying the sub-volume by {a}: landscape centre {c2:.5f}, zero-range alignment score {z2:.5f}"))
     if pair.startswith("offset") and mname == "ZNCC" and case["mask"] == "none":
         b = float(pair.split(":")[1])
         s2 = float(model.score((img + b).astype(np.float32), q, pos))
